@@ -32,6 +32,15 @@ def build_jobs(tier, seed):
                       split_depth=8))
     jobs.append(J(H['detect'], dict(P, magic='vmdk', vmdk_ok=True,
                                     read=4096, overlays=ov), split_depth=8))
+    # a well-formed VHDX read in large reads of symbolic size: decisions
+    # reported after a read must survive the following reads
+    jobs.append(J(H['detect'], dict(P, magic='vhdx', vhdx_image=True,
+                                    read='sym', max_sym_reads=6,
+                                    rsize_min=65536, rsize_max=1 << 20,
+                                    overlays='single',
+                                    nmin=320 * 1024 + 65536 + 8,
+                                    nmax=320 * 1024 + 65536 + 4096),
+                  split_depth=8))
     # text background (the VMDK inspector takes its text-descriptor branch)
     # with one arbitrary byte after the first sector
     jobs.append(J(H['detect'], dict(P, magic='none', read=4096,
